@@ -139,12 +139,12 @@ def parseKind (T : Tables) (fs : FileSys) (kind : String) (arg : String) : Res V
   | "split:label" => .ok (.strs ((replaceAll arg "\\n" "\n").splitOn ","))
   | "split:str" => .ok (.strs (arg.splitOn ","))
   | "underscore:str" => .ok (.str (replaceAll arg "_" " "))
-  | "int" => match parseInt? arg with
+  | "int" => match parseInt? arg with                      -- verif.util.parse_int: message + exit 1
       | some i => .ok (.int i)
-      | Option.none => .error (.raise "ValueError")
-  | "float" => match parseFloat? arg with
+      | Option.none => .error .exit
+  | "float" => match parseFloat? arg with                  -- verif.util.parse_float
       | some q => .ok (.num q)
-      | Option.none => .error (.raise "ValueError")
+      | Option.none => .error .exit
   | "axis" => getAxis T arg
   | "aggregator" => getAggregator T arg
   | "field" => getField T arg
@@ -383,7 +383,7 @@ def showOut (T : Tables) (c : Cfg) : String :=
 def render (T : Tables) (fs : FileSys) (toks : List String) : String :=
   match parseArgs T fs toks with
   | .error .exit => "ERR"
-  | .error (.raise ty) => if ty == "Hang" then "HANG" else "EXC:" ++ ty
+  | .error (.raise ty) => "EXC:" ++ ty
   | .ok c =>
     match finish T fs c with
     | .error .exit => "ERR"
